@@ -91,7 +91,7 @@ Qed.
 
 (* the example of the module documentation of bubble.rs: A = barrier, B = water, C = air *)
 Example bubble_doc_example :
-  let A := TKeyword in let B := TEnd in let C := fun _ : N => TNewline in
+  let A := fun n : N => TKeyword [n] in let B := TEnd in let C := fun _ : N => TNewline in
   bubble_cl [KCat C_NEWLINE] [KCtor KEnd]
     [A 1; A 2; B 1; B 2; B 2; B 3; C 1; B 4; C 2; A 3; A 4; C 3]%N
   = Some [A 1; A 2; C 1; C 2; B 1; B 2; B 2; B 3; B 4; A 3; A 4; C 3]%N.
@@ -99,6 +99,6 @@ Proof. vm_compute. reflexivity. Qed.
 
 (* without the side condition the order of [p]-tokens can change *)
 Example bubble_can_reorder :
-  bubble_cl [KCtor KTailComment] [KCtor KKeyword] [TKeyword 1; TTailComment 2]
-  = Some [TTailComment 2; TKeyword 1].
+  bubble_cl [KCtor KTailComment] [KCtor KKeyword] [TKeyword [1]; TTailComment [[2]]]
+  = Some [TTailComment [[2]]; TKeyword [1]].
 Proof. vm_compute. reflexivity. Qed.
